@@ -1,1 +1,635 @@
-//! (stub) filled in by its owner
+//! C16: Par/Seq trees assembled AT RUN TIME from the real `Par` / `Seq` nodes.
+//!
+//! * `DynNode` erases the type of a subtree (a boxing adapter that implements
+//!   `RunWithPool` by delegation); every node is built exactly like `par!` / `seq!`
+//!   build it (`Par::new(k1).with(k2)...`), with each `with` under `catch_unwind`.
+//! * Leaves (`PLeaf`) are self-identifying systems with REAL borrows on the world
+//!   (dynamic accessor over `PSlot` cells).  `fetch` is logged while the leaf holds
+//!   all its guards, `finish` before it releases them, both under the one mutex of
+//!   `PCtx` (S1): order in the log = order of linearisation points.
+//! * `dispatch_controlled` holds every started leaf inside `run`, so that all leaves
+//!   that CAN overlap DO overlap, and releases them one at a time in a random or
+//!   TLC-dictated order.  Waiting periods and timeouts only influence which
+//!   behaviours are provoked (completeness), never how a trace is judged.
+#![cfg(feature = "parallel")]
+
+use std::{
+    collections::{HashMap, HashSet},
+    panic::{catch_unwind, AssertUnwindSafe},
+    sync::{Arc, Condvar, Mutex},
+    time::{Duration, Instant},
+};
+
+use rand::{rngs::StdRng, seq::SliceRandom, Rng};
+use rayon::ThreadPool;
+use serde::{Deserialize, Serialize};
+use serde_json::{json, Value};
+use shred::{
+    Accessor, AccessorCow, DynamicSystemData, Fetch, FetchMut, Par, ParSeq, ResourceId, RunWithPool, Seq, System, World,
+};
+
+pub const M: u64 = 1_000_003;
+
+// ---------------------------------------------------------------- tree description
+
+#[derive(Clone, Debug, Serialize, Deserialize)]
+pub struct NodeSpec {
+    pub kind: String, // "par" | "seq" | "leaf"
+    pub kids: Vec<usize>,
+    #[serde(default)]
+    pub r: Vec<u32>,
+    #[serde(default)]
+    pub w: Vec<u32>,
+}
+
+/// Table of nodes, ids 1.. in preorder, root = 1 (index = id - 1): the `node` of ParSeq.tla.
+#[derive(Clone, Debug, Serialize, Deserialize)]
+pub struct TreeSpec(pub Vec<NodeSpec>);
+
+impl TreeSpec {
+    pub fn node(&self, n: usize) -> &NodeSpec {
+        &self.0[n - 1]
+    }
+    pub fn leaves(&self) -> Vec<usize> {
+        (1..=self.0.len()).filter(|n| self.node(*n).kind == "leaf").collect()
+    }
+    pub fn leaves_of(&self, n: usize, out: &mut Vec<usize>) {
+        if self.node(n).kind == "leaf" {
+            out.push(n);
+        } else {
+            for k in &self.node(n).kids {
+                self.leaves_of(*k, out);
+            }
+        }
+    }
+    pub fn resources(&self) -> Vec<u32> {
+        let mut v: Vec<u32> = self.0.iter().flat_map(|n| n.r.iter().chain(n.w.iter()).copied()).collect();
+        v.sort();
+        v.dedup();
+        v
+    }
+    /// SCHEDULING HEURISTIC ONLY (never part of a verdict): for every leaf the leaves that
+    /// have to be finished before it is expected to arrive.
+    pub fn prerequisites(&self) -> HashMap<usize, Vec<usize>> {
+        let mut pre: HashMap<usize, Vec<usize>> = self.leaves().into_iter().map(|l| (l, Vec::new())).collect();
+        for n in 1..=self.0.len() {
+            let nd = self.node(n);
+            if nd.kind != "seq" {
+                continue;
+            }
+            let mut earlier: Vec<usize> = Vec::new();
+            for k in &nd.kids {
+                let mut mine = Vec::new();
+                self.leaves_of(*k, &mut mine);
+                for l in &mine {
+                    pre.get_mut(l).unwrap().extend(earlier.iter().copied());
+                }
+                earlier.extend(mine);
+            }
+        }
+        pre
+    }
+}
+
+// ---------------------------------------------------------------- shared context
+
+#[derive(Default)]
+pub struct PInner {
+    pub log: Vec<Value>,
+    pub gated: bool,
+    pub waiting: Vec<usize>,
+    pub released: HashSet<usize>,
+    pub finished: HashSet<usize>,
+    pub done: bool,
+}
+
+pub struct PCtx {
+    pub m: Mutex<PInner>,
+    pub cv: Condvar,
+}
+
+impl PCtx {
+    pub fn new() -> Arc<Self> {
+        Arc::new(PCtx { m: Mutex::new(PInner::default()), cv: Condvar::new() })
+    }
+    pub fn ev(&self, v: Value) {
+        self.m.lock().unwrap().log.push(v);
+    }
+    pub fn take_log(&self) -> Vec<Value> {
+        std::mem::take(&mut self.m.lock().unwrap().log)
+    }
+}
+
+// ---------------------------------------------------------------- leaves
+
+#[derive(Default, Debug)]
+pub struct PSlot(pub u32);
+
+fn rid(res: u32) -> ResourceId {
+    ResourceId::new_with_dynamic_id::<PSlot>(res as u64)
+}
+
+#[derive(Clone, Debug)]
+pub struct PAcc {
+    /// the lists handed to the library exactly as declared (order, duplicates)
+    pub decl_r: Vec<ResourceId>,
+    pub decl_w: Vec<ResourceId>,
+    /// what is really borrowed: writes (dedup'd) exclusively, reads minus writes shared
+    pub rd: Vec<u32>,
+    pub wr: Vec<u32>,
+}
+
+impl PAcc {
+    pub fn new(r: &[u32], w: &[u32]) -> Self {
+        let mut wr: Vec<u32> = w.to_vec();
+        wr.sort();
+        wr.dedup();
+        let mut rd: Vec<u32> = r.iter().copied().filter(|x| !wr.contains(x)).collect();
+        rd.sort();
+        rd.dedup();
+        PAcc { decl_r: r.iter().map(|x| rid(*x)).collect(), decl_w: w.iter().map(|x| rid(*x)).collect(), rd, wr }
+    }
+}
+
+impl Accessor for PAcc {
+    fn try_new() -> Option<Self> {
+        None
+    }
+    fn reads(&self) -> Vec<ResourceId> {
+        self.decl_r.clone()
+    }
+    fn writes(&self) -> Vec<ResourceId> {
+        self.decl_w.clone()
+    }
+}
+
+pub struct PData<'a> {
+    pub r: Vec<Fetch<'a, PSlot>>,
+    pub w: Vec<FetchMut<'a, PSlot>>,
+}
+
+impl<'a> DynamicSystemData<'a> for PData<'a> {
+    type Accessor = PAcc;
+
+    fn setup(acc: &PAcc, world: &mut World) {
+        for res in acc.rd.iter().chain(acc.wr.iter()) {
+            if !world.has_value_raw(rid(*res)) {
+                world.insert_by_id(rid(*res), PSlot(1000 + *res));
+            }
+        }
+    }
+
+    fn fetch(acc: &PAcc, world: &'a World) -> Self {
+        // really borrow what was declared: the library's run-time backstop is live
+        let r = acc
+            .rd
+            .iter()
+            .map(|res| world.try_fetch_by_id(rid(*res)).unwrap_or_else(|| panic!("HARNESS: resource {} missing", res)))
+            .collect();
+        let w = acc
+            .wr
+            .iter()
+            .map(|res| world.try_fetch_mut_by_id(rid(*res)).unwrap_or_else(|| panic!("HARNESS: resource {} missing", res)))
+            .collect();
+        PData { r, w }
+    }
+}
+
+pub struct PLeaf {
+    pub id: usize,
+    pub acc: PAcc,
+    pub ctx: Arc<PCtx>,
+}
+
+impl<'a> System<'a> for PLeaf {
+    type SystemData = PData<'a>;
+
+    fn run(&mut self, mut data: PData<'a>) {
+        let ctx = self.ctx.clone();
+        let mut g = ctx.m.lock().unwrap();
+        // linearisation point: every guard is held
+        g.log.push(json!({"ev":"fetch","s":self.id}));
+        if g.gated {
+            g.waiting.push(self.id);
+            ctx.cv.notify_all();
+            while !g.released.remove(&self.id) {
+                g = ctx.cv.wait(g).unwrap();
+            }
+            g.waiting.retain(|x| *x != self.id);
+        }
+        let mut sum: u64 = 0;
+        for (i, f) in data.r.iter().enumerate() {
+            sum += (i as u64 + 1) * f.0 as u64;
+        }
+        let mut nv = Vec::with_capacity(data.w.len());
+        for f in data.w.iter_mut() {
+            f.0 = ((31 * f.0 as u64 + 7 * self.id as u64 + sum + 1) % M) as u32;
+            nv.push(f.0);
+        }
+        // still holding every guard
+        g.log.push(json!({"ev":"finish","s":self.id,"nv":nv}));
+        g.finished.insert(self.id);
+        ctx.cv.notify_all();
+    }
+
+    fn accessor<'b>(&'b self) -> AccessorCow<'a, 'b, Self> {
+        AccessorCow::Ref(&self.acc)
+    }
+
+    fn setup(&mut self, world: &mut World) {
+        self.ctx.ev(json!({"ev":"setup","s":self.id}));
+        <PData as DynamicSystemData>::setup(&self.acc, world)
+    }
+}
+
+// ---------------------------------------------------------------- the boxing adapter
+
+pub struct DynNode(pub Box<dyn for<'a> RunWithPool<'a> + Send>);
+
+impl<'a> RunWithPool<'a> for DynNode {
+    fn setup(&mut self, world: &mut World) {
+        self.0.setup(world)
+    }
+    fn run(&mut self, world: &'a World, pool: &ThreadPool) {
+        self.0.run(world, pool)
+    }
+    fn reads(&self, reads: &mut Vec<ResourceId>) {
+        self.0.reads(reads)
+    }
+    fn writes(&self, writes: &mut Vec<ResourceId>) {
+        self.0.writes(writes)
+    }
+}
+
+pub fn node_acc(n: &DynNode) -> (Vec<u32>, Vec<u32>) {
+    let mut r = Vec::new();
+    let mut w = Vec::new();
+    <DynNode as RunWithPool<'_>>::reads(n, &mut r);
+    <DynNode as RunWithPool<'_>>::writes(n, &mut w);
+    // ResourceId -> abstract resource number (the dynamic id of the PSlot cell)
+    let back = |v: Vec<ResourceId>| -> Vec<u32> {
+        v.into_iter()
+            .map(|id| (0..=256u32).find(|x| rid(*x) == id).expect("HARNESS: foreign resource id"))
+            .collect()
+    };
+    (back(r), back(w))
+}
+
+/// `$new(k1).with(k2)...` exactly as `par!` / `seq!` expand, each `with` observed.
+macro_rules! chain {
+    ($ctor:ident, $n:expr, $evs:expr, $k1:expr $(, $k:expr)*) => {{
+        let p = $ctor::new($k1);
+        #[allow(unused_mut, unused_variables)]
+        let mut i = 1usize;
+        $(
+            i += 1;
+            let k = $k;
+            let p = match catch_unwind(AssertUnwindSafe(move || p.with(k))) {
+                Ok(p) => {
+                    $evs.push(json!({"ev":"with","n":$n,"i":i,"out":"ok"}));
+                    p
+                }
+                Err(_) => {
+                    $evs.push(json!({"ev":"with","n":$n,"i":i,"out":"panic"}));
+                    return None;
+                }
+            };
+        )*
+        Some(DynNode(Box::new(p)))
+    }};
+}
+
+fn build_inner(kind: &str, n: usize, kids: Vec<DynNode>, evs: &mut Vec<Value>) -> Option<DynNode> {
+    let m = kids.len();
+    let mut it = kids.into_iter();
+    let mut nx = || it.next().unwrap();
+    macro_rules! arity {
+        ($ctor:ident) => {
+            match m {
+                1 => chain!($ctor, n, evs, nx()),
+                2 => chain!($ctor, n, evs, nx(), nx()),
+                3 => chain!($ctor, n, evs, nx(), nx(), nx()),
+                4 => chain!($ctor, n, evs, nx(), nx(), nx(), nx()),
+                5 => chain!($ctor, n, evs, nx(), nx(), nx(), nx(), nx()),
+                6 => chain!($ctor, n, evs, nx(), nx(), nx(), nx(), nx(), nx()),
+                _ => panic!("HARNESS: fan-out {} not supported", m),
+            }
+        };
+    }
+    if kind == "par" {
+        arity!(Par)
+    } else {
+        arity!(Seq)
+    }
+}
+
+pub fn mk_leaf(spec: &TreeSpec, n: usize, ctx: &Arc<PCtx>) -> PLeaf {
+    let nd = spec.node(n);
+    PLeaf { id: n, acc: PAcc::new(&nd.r, &nd.w), ctx: ctx.clone() }
+}
+
+/// Post-order construction of the subtree `n` from the real nodes.  `None`: a `with`
+/// panicked (the partial tree is gone, as in real code).
+pub fn build_tree(spec: &TreeSpec, n: usize, ctx: &Arc<PCtx>, evs: &mut Vec<Value>, log_acc: bool) -> Option<DynNode> {
+    let nd = spec.node(n);
+    let node = if nd.kind == "leaf" {
+        DynNode(Box::new(mk_leaf(spec, n, ctx)))
+    } else {
+        // `par![a, b]` evaluates a, Par::new(a), then b, .with(b): children left to right
+        // (building all children first does not change which `with` calls happen or their arguments)
+        let mut kids = Vec::new();
+        for k in &nd.kids {
+            kids.push(build_tree(spec, *k, ctx, evs, log_acc)?);
+        }
+        build_inner(&nd.kind, n, kids, evs)?
+    };
+    if log_acc {
+        let (r, w) = node_acc(&node);
+        evs.push(json!({"ev":"acc","n":n,"r":r,"w":w}));
+    }
+    Some(node)
+}
+
+// ---------------------------------------------------------------- controlled dispatch
+
+#[derive(Clone, Copy, Debug, PartialEq, Eq)]
+pub enum Caller {
+    /// `dispatch` called from a thread that belongs to no pool
+    Outside,
+    /// from inside the pool: `pool.install(|| dispatch)`
+    Inside,
+    /// from a worker of a different pool
+    Other,
+}
+impl Caller {
+    pub fn name(&self) -> &'static str {
+        match self {
+            Caller::Outside => "outside",
+            Caller::Inside => "inside",
+            Caller::Other => "other",
+        }
+    }
+}
+
+pub struct Timing {
+    pub stall: Duration,
+    pub grace: Duration,
+}
+
+#[derive(Default, Debug)]
+pub struct RunStats {
+    pub stalls: usize,
+    pub deviated: bool,
+    /// forced schedules: the set of leaves inside `run` equalled the model's before every finish
+    pub runsets_equal: bool,
+    pub max_overlap: usize,
+    pub result_ok: bool,
+}
+
+pub enum Sched<'s> {
+    Random(&'s mut StdRng),
+    /// (leaf to finish next, leaves the model has in `run` just before)
+    Forced(Vec<(usize, Vec<usize>)>),
+    /// no gating at all
+    Free,
+}
+
+/// One `dispatch` of the real tree with every started leaf held inside `run`.
+pub fn dispatch_controlled(
+    ps: &mut ParSeq<&ThreadPool, DynNode>,
+    world: &World,
+    ctx: &Arc<PCtx>,
+    spec: &TreeSpec,
+    pool: &ThreadPool,
+    other: &ThreadPool,
+    caller: Caller,
+    mut sched: Sched,
+    tm: &Timing,
+) -> RunStats {
+    let threads = pool.current_num_threads();
+    {
+        let mut g = ctx.m.lock().unwrap();
+        g.gated = !matches!(sched, Sched::Free);
+        g.waiting.clear();
+        g.released.clear();
+        g.finished.clear();
+        g.done = false;
+        let gated = g.gated;
+        g.log.push(json!({"ev":"begin","caller":caller.name(),"threads":threads,"gated":gated}));
+    }
+    let pre = spec.prerequisites();
+    let leaves = spec.leaves();
+    let mut st = RunStats { runsets_equal: true, ..Default::default() };
+    let ok = std::thread::scope(|s| {
+        let h = s.spawn(|| {
+            let r = catch_unwind(AssertUnwindSafe(|| match caller {
+                Caller::Outside => ps.dispatch(world),
+                Caller::Inside => pool.install(|| ps.dispatch(world)),
+                Caller::Other => other.install(|| ps.dispatch(world)),
+            }));
+            let mut g = ctx.m.lock().unwrap();
+            g.done = true;
+            ctx.cv.notify_all();
+            r.is_ok()
+        });
+        // ---- the controller
+        let mut step = 0usize;
+        let mut g = ctx.m.lock().unwrap();
+        let hard = Instant::now() + Duration::from_secs(120);
+        while !g.done && g.gated {
+            assert!(Instant::now() < hard, "HARNESS: controlled dispatch did not terminate");
+            // 1. wait for the leaves that are expected to arrive
+            let want: Option<Vec<usize>> = match &sched {
+                Sched::Forced(h) => h.get(step).map(|x| x.1.clone()),
+                _ => None,
+            };
+            let deadline = Instant::now() + tm.stall;
+            loop {
+                // heuristic: as many leaves as can be inside `run` at once are there
+                let enabled = leaves
+                    .iter()
+                    .filter(|l| !g.finished.contains(l) && pre[l].iter().all(|p| g.finished.contains(p)))
+                    .count();
+                let full = g.waiting.len() >= enabled.min(threads);
+                let ready = match &want {
+                    Some(run) => run.iter().all(|l| g.waiting.contains(l)) || (full && threads < run.len()),
+                    None => full,
+                };
+                if (ready && !g.waiting.is_empty()) || g.done {
+                    break;
+                }
+                let now = Instant::now();
+                if now >= deadline {
+                    if !g.waiting.is_empty() {
+                        st.stalls += 1;
+                        break;
+                    }
+                    // nothing to release yet: keep waiting (bounded by `hard`)
+                    let (ng, _) = ctx.cv.wait_timeout(g, Duration::from_millis(50)).unwrap();
+                    g = ng;
+                    if Instant::now() >= hard {
+                        break;
+                    }
+                    continue;
+                }
+                let (ng, _) = ctx.cv.wait_timeout(g, deadline - now).unwrap();
+                g = ng;
+            }
+            if g.done {
+                break;
+            }
+            // 2. grace period for arrivals that should NOT happen
+            let t_end = Instant::now() + tm.grace;
+            loop {
+                let now = Instant::now();
+                if now >= t_end {
+                    break;
+                }
+                let (ng, _) = ctx.cv.wait_timeout(g, t_end - now).unwrap();
+                g = ng;
+            }
+            if g.waiting.is_empty() {
+                continue;
+            }
+            st.max_overlap = st.max_overlap.max(g.waiting.len());
+            // 3. release exactly one
+            let pick = match &mut sched {
+                Sched::Forced(h) => match h.get(step) {
+                    Some((f, run)) => {
+                        let mut a = run.clone();
+                        let mut b = g.waiting.clone();
+                        a.sort();
+                        b.sort();
+                        if a != b {
+                            st.runsets_equal = false;
+                        }
+                        if g.waiting.contains(f) {
+                            *f
+                        } else {
+                            // unrealisable at this point (work stealing on a blocked stack, small pool): deviation
+                            st.deviated = true;
+                            g.waiting[0]
+                        }
+                    }
+                    None => {
+                        st.deviated = true;
+                        g.waiting[0]
+                    }
+                },
+                Sched::Random(rng) => *g.waiting.choose(*rng).unwrap(),
+                Sched::Free => unreachable!(),
+            };
+            step += 1;
+            g.released.insert(pick);
+            ctx.cv.notify_all();
+            while !g.finished.contains(&pick) && !g.done {
+                let (ng, _) = ctx.cv.wait_timeout(g, Duration::from_millis(200)).unwrap();
+                g = ng;
+                assert!(Instant::now() < hard, "HARNESS: a released leaf did not finish");
+            }
+        }
+        drop(g);
+        h.join().expect("HARNESS: dispatch thread")
+    });
+    st.result_ok = ok;
+    ctx.ev(json!({"ev":"end","res": if ok {"ok"} else {"panic"}}));
+    st
+}
+
+// ---------------------------------------------------------------- random trees
+
+pub struct GenCfg {
+    pub max_depth: usize,
+    pub max_fan: usize,
+    pub max_leaves: usize,
+    pub n_res: u32,
+    pub p_conflict: f64,
+}
+
+/// Random shape (preorder table) with at most `max_leaves` leaves.
+pub fn gen_shape(rng: &mut StdRng, cfg: &GenCfg) -> TreeSpec {
+    fn go(rng: &mut StdRng, cfg: &GenCfg, depth: usize, budget: &mut usize, out: &mut Vec<NodeSpec>) -> usize {
+        let id = out.len() + 1;
+        let leaf = depth == cfg.max_depth || *budget <= 1 || rng.gen_bool(if depth == 0 { 0.03 } else { 0.3 });
+        if leaf {
+            *budget = budget.saturating_sub(1);
+            out.push(NodeSpec { kind: "leaf".into(), kids: vec![], r: vec![], w: vec![] });
+            return id;
+        }
+        let kind = if rng.gen_bool(0.55) { "par" } else { "seq" };
+        out.push(NodeSpec { kind: kind.into(), kids: vec![], r: vec![], w: vec![] });
+        let fan = if rng.gen_bool(0.08) { 1 } else { rng.gen_range(2..=cfg.max_fan) };
+        let mut kids = Vec::new();
+        for i in 0..fan {
+            if *budget == 0 && i > 0 {
+                break;
+            }
+            kids.push(go(rng, cfg, depth + 1, budget, out));
+        }
+        out[id - 1].kids = kids;
+        id
+    }
+    let mut out = Vec::new();
+    let mut budget = cfg.max_leaves;
+    go(rng, cfg, 0, &mut budget, &mut out);
+    TreeSpec(out)
+}
+
+/// Leaf access declarations such that children of a par node never conflict (writable
+/// resources are partitioned among them), optionally spoilt by one random extra access.
+pub fn assign_access(rng: &mut StdRng, spec: &mut TreeSpec, cfg: &GenCfg) {
+    fn go(rng: &mut StdRng, spec: &mut TreeSpec, n: usize, w: Vec<u32>, r: Vec<u32>) {
+        let nd = spec.node(n).clone();
+        match nd.kind.as_str() {
+            "leaf" => {
+                let mut ws: Vec<u32> = w.iter().copied().filter(|_| rng.gen_bool(0.4)).collect();
+                let mut rs: Vec<u32> = w.iter().chain(r.iter()).copied().filter(|x| !ws.contains(x) && rng.gen_bool(0.4)).collect();
+                if rng.gen_bool(0.15) && !rs.is_empty() {
+                    let d = rs[0];
+                    rs.push(d); // declared twice
+                }
+                if rng.gen_bool(0.1) && !ws.is_empty() {
+                    // the same resource declared as read and as write by one leaf
+                    rs.push(ws[0]);
+                }
+                ws.shuffle(rng);
+                rs.shuffle(rng);
+                spec.0[n - 1].r = rs;
+                spec.0[n - 1].w = ws;
+            }
+            "seq" => {
+                for k in nd.kids {
+                    go(rng, spec, k, w.clone(), r.clone());
+                }
+            }
+            _ => {
+                // par: some writable resources become shared read-only, the rest is partitioned
+                let mut r2 = r.clone();
+                let mut parts: Vec<Vec<u32>> = vec![Vec::new(); nd.kids.len()];
+                for x in w {
+                    if rng.gen_bool(0.3) {
+                        r2.push(x);
+                    } else {
+                        let i = rng.gen_range(0..parts.len());
+                        parts[i].push(x);
+                    }
+                }
+                for (i, k) in nd.kids.iter().enumerate() {
+                    go(rng, spec, *k, parts[i].clone(), r2.clone());
+                }
+            }
+        }
+    }
+    let all: Vec<u32> = (1..=cfg.n_res).collect();
+    go(rng, spec, 1, all, vec![]);
+    if rng.gen_bool(cfg.p_conflict) {
+        let ls = spec.leaves();
+        let l = *ls.choose(rng).unwrap();
+        let x = rng.gen_range(1..=cfg.n_res);
+        if rng.gen_bool(0.6) {
+            spec.0[l - 1].w.push(x);
+        } else {
+            spec.0[l - 1].r.push(x);
+        }
+    }
+}
